@@ -147,6 +147,29 @@ Section P.
   End Sorted.
 End P.
 
+(* since 1478473 a decoded release always has an info object, so even the StatusFilter of
+   before b7c9b57 cannot dereference nil any more *)
+Lemma decode_release_has_info {B : Type} (raw : B -> option srel) b r :
+  decode_release raw b = Some r -> sr_status r <> None.
+Proof.
+  unfold decode_release. destruct (raw b) as [r0|]; simpl; [|discriminate].
+  intros H. inversion H; subst. unfold norm_info. destruct (sr_status r0) eqn:E; simpl; congruence.
+Qed.
+
+Lemma list_loop_prefix_filter_no_panic {B : Type} (empty : B) (raw : B -> option srel) status items :
+  no_panic (list_loop B empty (decode_release raw) (status_filter_prefix status) items).
+Proof.
+  induction items as [|it t IH]; simpl; auto.
+  destruct (decode_release raw (data_release B empty it)) as [r|] eqn:E; simpl; auto.
+  apply decode_release_has_info in E.
+  unfold status_filter_prefix at 1. simpl. destruct (sr_status r) as [s|]; [|congruence]. simpl.
+  destruct (list_loop B empty (decode_release raw) (status_filter_prefix status) t); simpl in *; auto.
+Qed.
+
+Lemma list_deployed_prefix_normalised_no_panic {B : Type} (empty : B) (raw : B -> option srel) st :
+  no_panic (list_deployed_prefix B empty (decode_release raw) st).
+Proof. unfold list_deployed_prefix, drv_list. apply list_loop_prefix_filter_no_panic. Qed.
+
 (* ---- the two repaired defects, on the pre-fix transcriptions ---- *)
 
 Definition dec_never : nat -> option srel := fun _ => None.
